@@ -1,13 +1,19 @@
 \* Exhaustive, thorough tier, read argument space: every forward / reverse / latest request of the
 \* three layers (limits 1..3, every start / end / max in 0..4 and MaxUint64) in every reachable
 \* state of the one-follower model with log end <= 3.
-\* Measured: 15,644 distinct states, about 5.2 million transitions (3 min at load 50).
+\* A fresh channel or a runtime loaded from a 3-row store.  Forwarded reads are left out here (FwdModes = {}):
+\* they evaluate the same operator SvcF as the service layer with a floor that equals Floor under the stated
+\* environment assumption; with FwdModes = {"miss"} this config has 18,958 states / 11.7 million transitions.
+\* Measured before loaded stores were added: 15,644 distinct states, about 5.2 million transitions (3 min at load 50).
 SPECIFICATION Spec
 CONSTANTS
   Followers = {2}
   ISRs = {{1}, {1, 2}}
   MinISRs = {1, 2}
   Stores = {"memory", "messagedb"}
+  FwdModes = {}
+  PreLeos = {0, 3}
+  PreBars = {0}
   MaxLeo = 3
   MaxB = 3
   Trims = {0, 1}
@@ -18,6 +24,7 @@ CONSTANTS
   SyncEnds = {0, 1, 2, 3, 4}
   CapZeroUnbounded = FALSE
   LastUncapped = FALSE
+  FwdDropsSyncOnce = FALSE
 VIEW View
 INVARIANTS TypeOK C10_PhysBound
 PROPERTIES C10_ReadWindow C10_Monotone C10_TrimCovered
